@@ -811,6 +811,14 @@ private:
             if (!local_ok && !db_has) {
                 viol("C33", std::string("C33:find_key:offered_without_pairing_or_bond:") + qclass + ":" + situation,
                      "find_key(" + std::to_string(ediv) + "," + std::to_string(rand) + ") offers " + verif::hex(got.second.data(), 16));
+            } else if (local_ok && !disturbed && got.second != key_on_conn) {
+                // a pairing completed on this connection and nothing happened since: the offered key has to be the one that pairing produced
+                if (db_has && got.second == db_key)
+                    viol("C33", std::string("C33:find_key:stale_bond_key_offered_after_new_pairing:") + (proto_lesc ? "lesc" : "legacy"),
+                         "find_key(0,0) offers the bonded key " + verif::hex(got.second.data(), 16) + " of an earlier pairing instead of the key the pairing just completed on this connection produced, " + verif::hex(key_on_conn.data(), 16));
+                else
+                    viol("C33", std::string("C33:find_key:wrong_key:") + qclass + ":" + (proto_lesc ? "lesc" : "legacy"),
+                         "find_key(0,0) offers " + verif::hex(got.second.data(), 16) + " expected " + verif::hex(key_on_conn.data(), 16));
             } else if (!((local_ok && got.second == key_on_conn) || (db_has && got.second == db_key))) {
                 viol("C33", std::string("C33:find_key:wrong_key:") + qclass + ":" + (proto_lesc ? "lesc" : "legacy"),
                      "find_key(" + std::to_string(ediv) + "," + std::to_string(rand) + ") offers " + verif::hex(got.second.data(), 16) + " expected "
@@ -821,6 +829,7 @@ private:
             else if (local_ok && !disturbed) viol("C33", std::string("C33:find_key:missing:after_completed_pairing:") + (proto_lesc ? "lesc" : "legacy"), "pairing completed on this connection but find_key(0,0) offers nothing");
         }
         M.cls(std::string(qclass) + ":" + (got.first ? "key" : "none"));
+        if (zero && local_ok && !disturbed && db_has && db_key != key_on_conn) M.cls("zero:new_pairing_key_while_older_bond_entry_exists");
         std::uint64_t h = verif::hstr(port.name); h = verif::mix(h, verif::hstr(qclass)); h = verif::mix(h, verif::hstr(situation)); h = verif::mix(h, got.first); h = verif::mix(h, db_has); h = verif::mix(h, proto_lesc);
         if (completed_on_conn || db_has || exch_active || last_failed) M.nontrivial(h);
     }
